@@ -121,5 +121,35 @@ def haltStep (m : HaltSt) : Item → HaltSt
 
 def failureStopsOk (tr : List Item) : Bool := accepts haltStep {} tr
 
+/-! ### `commit()` that reports success at once has nothing to commit
+
+A manual `commit()` whose Deferred succeeds immediately (no request issued) is only right when nothing
+has been processed yet or the reported (= last committed) offset IS the last processed one. -/
+
+structure CrSt where
+  p : ProcSt := {}
+  inCommit : Bool := false     -- handling a `commit()` call
+  sent : Bool := false         -- … which issued a commit request
+  bad : Bool := false
+  deriving DecidableEq, Repr
+
+instance : HasBad CrSt := ⟨CrSt.bad⟩
+
+def crStep (m0 : CrSt) (x : Item) : CrSt :=
+  let m := { m0 with p := procTrack m0.p x }
+  match x with
+  | .ev .commit => { m with inCommit := true, sent := false }
+  | .ob (.act .commit) => { m with inCommit := true, sent := false }
+  | .ev _ => { m with inCommit := false }
+  | .ob (.act _) => { m with inCommit := false }
+  | .ob (.commitReq _ _) => { m with sent := true }
+  | .ob (.commitFired _ (.ok v)) =>
+    if m.inCommit && !m.sent && m.p.processed.isSome && v != m.p.processed then { m with bad := true }
+    else { m with inCommit := false }
+  | .ob (.procRet _) => { m with inCommit := false }
+  | _ => m
+
+def commitReportsOk (tr : List Item) : Bool := accepts crStep {} tr
+
 end C03
 end Afkak.Monitor
